@@ -113,6 +113,15 @@ CHECKS["C10"] = ("exploration",
     "estimators and all fit_improve_algo values.",
     "DESIGN.md §3 C10")
 
+CHECKS["C08"] = ("exploration",
+    "runtime history monitor with recording local estimators (which rows/targets/weights reached which model), "
+    "independent bucket route (Tree.apply / bin edges), bucket-by-bucket recomputation of outputs, differential "
+    "over n_jobs and over sys.monitoring yield-injected thread schedules (distinct interleavings reported)",
+    "Every fit is reconstructed from the probes' logs: partition, one model per non-empty bucket, alignment of "
+    "targets and weights, class borrowing; every output is recomputed from the bucket's model or the fallback for "
+    "unseen buckets; the same fit is repeated with other n_jobs values and under perturbed schedules and must agree.",
+    "DESIGN.md §3 C08")
+
 PENDING = {}
 
 
